@@ -10,6 +10,12 @@ TRUST = ("Trusted base: go/packages + go/types type-checking of /repo's working 
 
 # id -> (technique, level text, design ref)
 CLAIMED = {
+ "C11": ("go/cfg ordering, gate and dominance rules on eval.RunDSL; loop-exit and dispatch tables; SSA path table of Record",
+         "Static necessary conditions only: global phase barrier and error gates between phases on every path of RunDSL, whole-list loops, re-reading of roots registered during execution, no early exit from the set runners, interface/method dispatch pairing, dependency callbacks that depend on their argument. Does not decide that Roots() is a topological sort with cycle detection for every graph.",
+         "DESIGN.md §3 C11"),
+ "C13": ("ownership/aliasing rule on the dup family, type-switch and Kind tables, dominance of cycle memos, sort-comparator and map-order lints, parameter pass-through, SSA path tables",
+         "Static necessary conditions only: no structural aliasing in the dup family, exhaustive kind tables, memo-before-recursion, order-free hashing (comparators, map ranges), Equal defined through Hash with one flag triple, flags passed through every recursive hash call, Hash's documented flag semantics on hashUserType. Does not decide equality of copy and original on all graphs nor hash collisions.",
+         "DESIGN.md §3 C13"),
  "C15": ("SSA path tables (media-type→codec decision tables, effect traces), type-switch tables",
          "Static necessary conditions only: the codec decision tables of ResponseEncoder/ResponseDecoder/RequestDecoder/negotiate agree with one reference table (hence with each other), the announced media type belongs to the returned encoder on every path, no nil encoder, 415 wiring, SetContentType composition table. Does not decide byte-level round trips, Accept grammar or third-party codecs.",
          "DESIGN.md §3 C15"),
